@@ -203,6 +203,7 @@ void profile_twin(RunCtx& ctx)
             return;
         ctx.event(std::string{"load "} + entry_name(c.entry));
         std::string dump = r.threw ? "threw " + r.exc_class : dump_document(*s.doc, o);
+        ctx.event(std::to_string(fnv1a(dump)));
         if (!r.threw && !s.doc->has_errors())
             ctx.count("models-accepted");
         if (ref_dump.empty()) {
@@ -462,7 +463,8 @@ void profile_writer(RunCtx& ctx)
     CallResult r = ctx.call(s, w, st, false);
     if (ctx.violations)
         return;
-    ctx.event("write");
+    ctx.event("write " + w.sched.str() + (r.threw ? " threw " + r.exc_class : " ret " + std::to_string(r.ret)) + " fired " +
+              std::to_string(r.ctx.io_fault_fired) + " model " + std::to_string(fnv1a(xml)));
     Sink* sink = sink_get("out.xml");
     if (iofault) {
         // class C: only "no crash, returns or throws std::exception" is demanded; the rest is a probe
@@ -492,6 +494,7 @@ void profile_writer(RunCtx& ctx)
     }
     ctx.count("written-files-compared");
     ctx.count("written-bytes", sink->data.size());
+    ctx.event(std::to_string(fnv1a(sink->data)));
     std::string kind;
     std::string why = compare_written(*s.doc, wd, kind);
     if (!why.empty())
